@@ -55,9 +55,20 @@ func errCheckedAndReturned(ci *ssa.Call) (bool, string) {
 				if bo.Op == token.EQL {
 					eb = iff.Block().Succs[1]
 				}
-				if ret, ok := reachFromBlock(eb, isReturn, nil); ok {
-					rv := returnedValues(ret.(*ssa.Return))
-					if len(rv) > 0 && !isNilConst(rv[len(rv)-1]) {
+				// every path from the error branch ends in a return with a non-nil error: none reaches a
+				// `return nil` and none comes back to the call (an error swallowed by `continue`)
+				isBad := func(x ssa.Instruction) bool {
+					if x == ssa.Instruction(ci) {
+						return true
+					}
+					if ret, ok := x.(*ssa.Return); ok && ret.Block().Comment != "recover" {
+						rv := returnedValues(ret)
+						return len(rv) > 0 && isNilConst(rv[len(rv)-1])
+					}
+					return false
+				}
+				if _, bad := reachFromBlock(eb, isBad, nil); !bad {
+					if _, ok := reachFromBlock(eb, isReturn, nil); ok {
 						good = true
 					}
 				}
@@ -418,4 +429,50 @@ func runC19(c *Ctx) {
 		})
 		c.check(g, "store-refuses-expired", stF.Pos(), "Store is a no-op for entries expiring before now", "Store admits entries that are already expired (a stale dump resurrects dead answers)")
 	}
+
+	// ---------------------------------------------------------------- R7
+	c.rule("R7", "every stored message can be packed again: entries are stored without their OPT record, so only rcodes that fit the 4-bit header field (0..15) are admitted", 1)
+	if save := c.fn(relCachePlugin, "", "saveRespToCache"); save != nil {
+		c.see(save)
+		var msgTtl ssa.Value
+		eachInstr(save, func(in ssa.Instruction) {
+			if st, ok := in.(*ssa.Store); ok {
+				if k, _ := fieldKey(st.Addr); k == IT+".expirationTime" {
+					if cl, ok := st.Val.(*ssa.Call); ok && callName(cl) == "(time.Time).Add" {
+						msgTtl = cl.Call.Args[1]
+					}
+				}
+			}
+		})
+		if msgTtl == nil {
+			c.anchorMissing("item.expirationTime = now.Add(msgTtl) in saveRespToCache")
+		} else {
+			bad := ""
+			n := 0
+			for _, lf := range expandCases(msgTtl, nil, 0) {
+				if k, ok := constInt(lf.val); ok && k <= 0 {
+					continue // not stored
+				}
+				n++
+				small := false
+				for _, g := range lf.guards {
+					cm, ok := g.asCmp()
+					if !ok || cm.Op != token.EQL {
+						continue
+					}
+					if k, isF := loadedField(cm.X); isF && strings.HasSuffix(k, "dns.MsgHdr.Rcode") {
+						if rc, ok := constInt(cm.Y); ok && rc >= 0 && rc <= 15 {
+							small = true
+						}
+					}
+				}
+				if !small {
+					bad = exprStr(lf.val)
+				}
+			}
+			c.check(bad == "" && n > 0, "storable-rcodes-pack-without-opt", save.Pos(), "every positive lifetime is assigned under rcode == k with k in 0..15",
+				"a positive lifetime ("+bad+") is assigned without an explicit rcode in 0..15: an extended rcode (>15, carried in the OPT record that copyNoOpt strips) can be stored, writeDump's Pack of that entry fails and aborts the whole dump after the file was truncated")
+		}
+	}
+
 }
